@@ -73,6 +73,8 @@ type c02Env struct {
 	// unknownEpoch: a follower asked a leader about a leader epoch that leader
 	// has no record of (the follower wrote under an epoch the leader never saw)
 	unknownEpoch bool
+	served       map[int64]c02Served // what the attached consumer was handed, by offset
+	nserved      int
 }
 
 func (e *c02Env) logf(format string, a ...interface{}) {
@@ -138,7 +140,7 @@ func c02Digest(r vfLogRec) uint64 {
 func c02NewEnv(rep *kit.Report, family string, seed uint64) (*c02Env, error) {
 	e := &c02Env{rep: rep, family: family, seed: seed, stream: "c02s", subject: "c02s.subj",
 		committed: map[int64]uint64{}, commitBy: map[int64]string{}, tags: map[int64]string{}, acked: map[string]int64{},
-		elected: map[string]bool{}, gates: map[string]chan struct{}{}}
+		elected: map[string]bool{}, gates: map[string]chan struct{}{}, served: map[int64]c02Served{}}
 	c, err := vfNewCluster("c02", 3, func(cfg *Config) {
 		cfg.Clustering.ReplicaMaxLeaderTimeout = 1200 * time.Millisecond
 		cfg.Clustering.ReplicaMaxIdleWait = 250 * time.Millisecond
@@ -1084,11 +1086,15 @@ func TestVerifC02(t *testing.T) {
 			continue
 		}
 		stop, done := make(chan struct{}), make(chan struct{})
+		cdone := make(chan struct{})
 		go e.sampler(stop, done)
+		go e.consumer(stop, cdone)
 		fn(e, kit.NewRNG(seed))
 		close(stop)
 		<-done
+		<-cdone
 		e.observe("final")
+		e.checkServedCommitted()
 		rep.Eval()
 		e.mu.Lock()
 		changes := len(e.elected)
@@ -1098,6 +1104,7 @@ func TestVerifC02(t *testing.T) {
 		rep.Count("leader_elections_seen", int64(changes))
 		rep.Count("offset_responses_from_replication_learned_boundary", int64(e.learned))
 		rep.Count("trace_events", int64(len(e.trace)))
+		rep.Count("messages_served_to_attached_consumer", int64(e.nserved))
 		if e.f6Reached {
 			rep.Count("f6_isr_member_behind_leader_hw_reached", 1)
 		}
